@@ -16,6 +16,7 @@ package main
 // Function literals are not entered: each is analysed as a function of its own.
 
 import (
+	"os"
 	"fmt"
 	"go/ast"
 	"go/constant"
@@ -599,15 +600,24 @@ func (g *Graph) reach(starts []int, blockV func(v *Vertex) bool, blockE func(e E
 				ne[o] = val
 			}
 			for _, ef := range effs {
-				if ef.val == flagUnknown {
+				switch {
+				case ef.src != nil:
+					// all right-hand sides are read before any left-hand side is written
+					if val, known := env[ef.src]; known {
+						ne[ef.obj] = val
+					} else {
+						delete(ne, ef.obj)
+					}
+				case ef.val == flagUnknown:
 					delete(ne, ef.obj)
-				} else {
+				default:
 					ne[ef.obj] = ef.val
 				}
 			}
 			env = ne
 		}
 		decided := -1
+		var learn *flagTestT
 		if v.Kind == VCond {
 			if t, ok := g.flagTest[it.v]; ok {
 				if val, known := env[t.obj]; known {
@@ -617,9 +627,12 @@ func (g *Graph) reach(starts []int, blockV func(v *Vertex) bool, blockE func(e E
 					} else {
 						decided = LFalse
 					}
+				} else {
+					learn = &t // the edge taken tells the value
 				}
 			}
 		}
+		baseEnv := env
 		for _, e := range v.Succs {
 			if decided >= 0 && (e.Label == LTrue || e.Label == LFalse) && e.Label != decided {
 				continue
@@ -629,6 +642,21 @@ func (g *Graph) reach(starts []int, blockV func(v *Vertex) bool, blockE func(e E
 			}
 			if blockV != nil && blockV(g.V[e.To]) {
 				continue
+			}
+			env := baseEnv
+			if learn != nil && (e.Label == LTrue || e.Label == LFalse) {
+				val := learn.onTrue
+				if e.Label == LFalse {
+					val = flagComplement(val)
+				}
+				if val != flagUnknown {
+					ne := make(map[types.Object]int8, len(baseEnv)+1)
+					for o, x := range baseEnv {
+						ne[o] = x
+					}
+					ne[learn.obj] = val
+					env = ne
+				}
 			}
 			st := state{e.To, key(env)}
 			if visited[st] {
@@ -661,6 +689,21 @@ const (
 type flagEffect struct {
 	obj types.Object
 	val int8
+	src types.Object // x = y between tracked locals: x takes what is known about y
+}
+
+func flagComplement(v int8) int8 {
+	switch v {
+	case flagTrue:
+		return flagFalse
+	case flagFalse:
+		return flagTrue
+	case flagNil:
+		return flagNonNil
+	case flagNonNil:
+		return flagNil
+	}
+	return flagUnknown
 }
 
 type flagTestT struct {
@@ -721,7 +764,8 @@ func (g *Graph) initFlags() {
 	}
 	isLocal := func(o types.Object) bool {
 		v, ok := o.(*types.Var)
-		return ok && !v.IsField() && v.Pkg() != nil && v.Parent() != nil && v.Parent() != v.Pkg().Scope()
+		// objects minted by the inliner for a helper's locals have no scope
+		return ok && !v.IsField() && v.Pkg() != nil && (v.Parent() == nil || v.Parent() != v.Pkg().Scope())
 	}
 	// candidates: locals assigned a constant somewhere
 	cands := map[types.Object]bool{}
@@ -792,7 +836,14 @@ func (g *Graph) initFlags() {
 						}
 					}
 				}
-				eff[v.ID] = append(eff[v.ID], flagEffect{o, val})
+				var src types.Object
+				if val == flagUnknown && len(n.Lhs) == len(n.Rhs) && (n.Tok == token.ASSIGN || n.Tok == token.DEFINE) {
+					if so := objOfIdent(n.Rhs[i]); so != nil && isLocal(so) && so != o {
+						src = so
+						cands[o], cands[so] = true, true
+					}
+				}
+				eff[v.ID] = append(eff[v.ID], flagEffect{o, val, src})
 				if val != flagUnknown {
 					cands[o] = true
 				}
@@ -816,14 +867,14 @@ func (g *Graph) initFlags() {
 						val = flagNil
 					}
 				}
-				eff[v.ID] = append(eff[v.ID], flagEffect{o, val})
+				eff[v.ID] = append(eff[v.ID], flagEffect{o, val, nil})
 				if val != flagUnknown {
 					cands[o] = true
 				}
 			}
 		case *ast.IncDecStmt:
 			if o := objOfIdent(n.X); o != nil && isLocal(o) {
-				eff[v.ID] = append(eff[v.ID], flagEffect{o, flagUnknown})
+				eff[v.ID] = append(eff[v.ID], flagEffect{o, flagUnknown, nil})
 			}
 		}
 		if v.Kind == VRange {
@@ -831,7 +882,7 @@ func (g *Graph) initFlags() {
 			for _, kv := range []ast.Expr{rs.Key, rs.Value} {
 				if kv != nil {
 					if o := objOfIdent(kv); o != nil && isLocal(o) {
-						eff[v.ID] = append(eff[v.ID], flagEffect{o, flagUnknown})
+						eff[v.ID] = append(eff[v.ID], flagEffect{o, flagUnknown, nil})
 					}
 				}
 			}
@@ -848,9 +899,18 @@ func (g *Graph) initFlags() {
 	for id, es := range eff {
 		for _, e := range es {
 			if g.flagVars[e.obj] {
+				if e.src != nil && !g.flagVars[e.src] {
+					e.src = nil
+				}
 				g.flagEff[id] = append(g.flagEff[id], e)
 			}
 		}
+	}
+	if os.Getenv("VERIF_DBG_FLAGS") != "" {
+		for o := range g.flagVars {
+			fmt.Fprintf(os.Stderr, "flagvar %s@%d ", o.Name(), o.Pos())
+		}
+		fmt.Fprintln(os.Stderr, len(g.V))
 	}
 	g.flagTest = map[int]flagTestT{}
 	for _, v := range g.V {
